@@ -232,6 +232,12 @@ func c20Judge(res *Result, tally *c20Tally, s *c20Script, real []pkglint.VerifC2
 	tally.add("scripts_mode_"+c20ModeName[s.Mode], 1)
 	tally.add("ops", len(real))
 	reported := false
+	nontrivial := false
+	defer func() {
+		if nontrivial {
+			tally.add("scripts_nontrivial", 1)
+		}
+	}()
 	for i, ob := range real {
 		has := func(flag string) bool {
 			for _, f := range ob.Flags {
@@ -306,6 +312,9 @@ func c20Judge(res *Result, tally *c20Tally, s *c20Script, real []pkglint.VerifC2
 			return
 		}
 		ev := events[i]
+		if ev&(1|2|4|16) != 0 {
+			nontrivial = true
+		}
 		for bit, name := range map[int]string{1: "cache_hits", 2: "miss_other_options", 4: "overflow_removeOldEntries", 16: "evict_removed_entry", 32: "evict_swapped_with_last", 64: "loads_not_cached_suffix"} {
 			if ev&bit != 0 {
 				tally.add(name, 1)
@@ -316,7 +325,7 @@ func c20Judge(res *Result, tally *c20Tally, s *c20Script, real []pkglint.VerifC2
 		res.AddViolation(Violation{Key: "C20/correspondence/length",
 			What:       fmt.Sprintf("the implementation stopped after %d steps of [%s], the model ran %d", len(real), strings.Join(s.opStrings(), " "), len(model)),
 			FoundInput: false, Size: len(s.Ops),
-			Replay:     s.replay(map[string]any{"broken": "correspondence VerifFileCacheScript = Model.FileCache.step"})})
+			Replay: s.replay(map[string]any{"broken": "correspondence VerifFileCacheScript = Model.FileCache.step"})})
 	}
 	res.TracesValidated++
 }
@@ -579,8 +588,15 @@ func c20Worker(ctx *Ctx) *Result {
 			})
 		case "rand":
 			rng := NewRng(job.Seed)
+			seen := map[string]bool{}
 			for i := 0; i < job.Count; i++ {
-				batch = append(batch, c20RandomScript(rng, job.Len))
+				sc := c20RandomScript(rng, job.Len)
+				if r := sc.request(); seen[r] {
+					continue
+				} else {
+					seen[r] = true
+				}
+				batch = append(batch, sc)
 				if len(sample) < 4 && i == 5 {
 					sample = append(sample, batch[len(batch)-1].request())
 				}
@@ -1013,7 +1029,7 @@ func c20Audit(ctx *Ctx, res *Result, tally *c20Tally) {
 	tally.add("audit_mutator_sites", len(found))
 	if strings.Join(found, "\n") != strings.Join(want, "\n") {
 		res.AddViolation(Violation{Key: "C20/audit/line-mutators", FoundInput: false, Size: 1,
-			What: fmt.Sprintf("the assignments to Line.Text / RawLine.orignl / Line.raw / lineno in the source are no longer the ones the model was written against: found %q, expected %q", found, want),
+			What:   fmt.Sprintf("the assignments to Line.Text / RawLine.orignl / Line.raw / lineno in the source are no longer the ones the model was written against: found %q, expected %q", found, want),
 			Replay: map[string]any{"kind": "audit", "broken": "static audit: writers of Line.Text, RawLine.orignl, Line.raw", "found": found, "expected": want}})
 	}
 }
@@ -1021,7 +1037,7 @@ func c20Audit(ctx *Ctx, res *Result, tally *c20Tally) {
 // ---------- run / replay ----------
 
 func runC20(ctx *Ctx) *Result {
-	res := &Result{Rule: "scripts over {load f o, fix through a view, save a view, modify on disk + evict}: every canonical word of length L (= all words of length <= L as prefixes) over the 12-symbol alphabet {load a/b/c.mk x 2 option sets, fix/save through the last/previous view, rewrite a.mk/b.mk}, capacity 2 and 3, modes default/-f/-F, then seeded random scripts up to length 60 (5 cached files + 1 uncached, capacity 1-4, all five fix operations, removal, empty files); non-trivial = a script in which a Load is served by the cache or follows a fix, save, eviction or overflow (counted per script, distinct by construction of the enumeration; random scripts distinct by request string); whole runs: 7 two/three-package scenarios x 7 sets of fixable lines x {default, -F, --show-autofix} x {explicit arguments, -r}"}
+	res := &Result{Rule: "scripts over {load f o, fix through a view, save a view, modify on disk + evict}: every canonical word of length L (= all words of length <= L as prefixes) over the 12-symbol alphabet {load a/b/c.mk x 2 option sets, fix/save through the last/previous view, rewrite a.mk/b.mk}, capacity 2 and 3, modes default/-f/-F, then seeded random scripts up to length 60 (5 cached files + 1 uncached, capacity 1-4, all five fix operations, removal, empty files); non-trivial = a script in which, according to the model run that matched the real run, at least one Load was served by the cache, missed because of other options, or made removeOldEntries run, or a save/modify evicted an entry (counted per script; the enumerated words are pairwise distinct, random scripts are deduplicated by their request string per worker); whole runs: 7 two/three-package scenarios x 7 sets of fixable lines x {default, -F, --show-autofix} x {explicit arguments, -r}"}
 	tally := &c20Tally{}
 	maxLen, randCount, randLen := 6, 3000, 60
 	if ctx.Tier == "thorough" {
@@ -1049,7 +1065,7 @@ func runC20(ctx *Ctx) *Result {
 	for k, n := range tally.n {
 		res.Count(k, n)
 	}
-	res.DistinctNontrivial = tally.n["scripts_exh"] + tally.n["scripts_rand"]
+	res.DistinctNontrivial = tally.n["scripts_nontrivial"]
 	res.Exhaustive = false
 	// coverage floors on the unchanged tree: the branches the property names
 	if len(res.Violations) == 0 {
